@@ -92,6 +92,10 @@ def concretise(c, rnd):
     r = geom.ref_element(c["refkind"], c["ref"])
     ref = rnd.choice(["#r", "^"])
     k = c["kind"]
+    if f == "dirdelta":
+        gap = " " + q(c["gap"])
+        dd = rnd.choice([f'dw="{q(c["dw"])}" dh="{q(c["dh"])}"', f'dwh="{q(c["dw"])} {q(c["dh"])}"'])
+        return f'<svg>{r}<{k} id="s" xy="{ref}|{c["dir"]}{gap}" wh="2 1" {dd}/></svg>'
     if f == "dir":
         gap = "" if (c["gap"] == 0 and rnd.random() < 0.5) else " " + q(c["gap"])
         return f'<svg>{r}<{k} id="s" xy="{ref}|{c["dir"]}{gap}" {geom.size_attrs(k, c["w"], c["h"], rnd)}/></svg>'
